@@ -29,6 +29,7 @@ RULE = (
     "thresholds tiny..huge, all policies, FP-labelled GT mixes, 1..4 frames); (b) directly constructed frames with objects "
     "placed around the critical bounds; non-trivial = frame with >=1 result and >=1 critical GT; distinct = distinct "
     "signatures (frame id, task, policy, range kind, buckets populated among TP/FP-noGT/FP-matched/FP-matchedFPGT/FN/TN, objects removed?)"
+    " Later additions: pass/fail configurations with their own per-label confidence lists, zero thresholds, shared configuration objects across frames, 2D frames."
 )
 ASSUMPTIONS = [
     "ground-truth objects of one frame are pairwise distinct under the library's object equality",
